@@ -195,7 +195,8 @@ class TornadoEventLoop(EventLoop):
             except ExitMainLoop:
                 pass  # handled later
             except BaseException as exc:  # asyncio would log and drop what is not an Exception
-                self._exc = exc
+                if self._exc is None:  # callbacks already due still run: report the first exception
+                    self._exc = exc
 
             if self._idle_asyncio_handle:
                 # clean it up to prevent old callbacks
